@@ -186,6 +186,28 @@ def run(pid, tier, seed):
         for j in jobs:
             scripts.append({"id": j["id"], "random_job": j})
         verdict = validate(scratch, outp)
+        # concurrent sections (specs/LockSched.tla schedules on the gate build, judged through their linearizations: tools/conc_me.py)
+        import conc_me
+        conc_sum = None
+        cr = conc_me.run(scratch, pid, tier, seed, validate)
+        if cr:
+            conc_sum = dict(cr["summary"], model_runs=cr["stats"])
+            for b in cr["bad"]:
+                per = [[c for c in ids if c.startswith(pid) or (pid == "C13" and c == "C05_me")] for ids in b["per_order"]]
+                if all(per):
+                    verdict["bad"].append(dict(b, ids=min(per, key=len)))
+            for c_, n_ in cr["cnt"].items():
+                verdict["cnt"][c_] = verdict["cnt"].get(c_, 0) + n_
+            verdict["n"] += cr["n"]
+            for sid_, sc_ in cr["scripts"].items():
+                if sid_ in cr["traces"]:
+                    scripts.append(sc_)
+            with open(outp, "a") as fo:
+                for lns_ in cr["traces"].values():
+                    fo.writelines(lns_)
+            for st_ in cr["stats"]:
+                states += st_.get("distinct") or 0
+                transitions += st_.get("generated") or 0
         mine = []
         for b in verdict["bad"]:
             ids = [c for c in b["ids"] if c.startswith(pid) or (pid == "C13" and c == "C05_me")]
@@ -226,6 +248,7 @@ def run(pid, tier, seed):
                "clause_antecedent_hits": {c: verdict["cnt"][c] for c in mycl},
                "vacuous_clauses": [c for c in mycl if verdict["cnt"][c] == 0],
                "model_problems": [{"config": p["config"], "violated": p["violated"]} for p in problems],
+               "concurrent_sections": conc_sum,
                "explanation": "specs/ME.tla (mechanism) checked by TLC against the clauses of specs/MEGhost.tla for every history up to max_events "
                               "inputs per (recovery, delay, initial list) configuration; every history replayed on the real package; "
                               "clauses evaluated by TLC on the recorded trace (specs/METrace.tla)"}
